@@ -329,6 +329,11 @@ func (w *world) subscribe(s int) map[string]interface{} {
 		}
 		return res
 	}
+	if (s+worldCount)%2 == 0 {
+		// another client's request, refused before anything is resolved (a variable that can not be coerced, reported at
+		// line 4 of ITS document): its errors are its own, the answer to the subscription request that follows has none
+		w.root.ResolveString("query Other(\n\n\n $v: Int) { __typename }", "", map[string]interface{}{"v": "no number"})
+	}
 	// the subscription field stands in the operation itself, in an inline fragment or in a named fragment spread there
 	field := fmt.Sprintf("watch(sub: %d) { %s }", s, sel)
 	switch (s + worldCount) % 3 {
